@@ -178,7 +178,7 @@ CLAIMED["C20"] = {
             "the AST on every run; inputs = the parameter object, the raw value, the program) passes the may-alias ownership "
             "check of C09 (C20_clean_bodies_pass, vm_compute), hence - by the soundness theorem of that check - every object that "
             "exists when clean() is entered is in the same state when it returns or raises, for every execution of the body "
-            "(C20_clean_is_pure). Ties regenerated every run: exception classes caught and kind guards present in params.py (AST), all "
+            "(C20_clean_is_pure). Ties regenerated every run: exception classes caught and kind guards of the cleaners (observed on the live classes with probe objects), all "
             "declared parameters are of modelled classes, accepts() table from the live classes. Differential runs compare the "
             "model with Parameter.clean over all declarations x raw kinds x working directories, with repeat, idempotence, "
             "deep-copy and fresh-object (history) oracles.",
@@ -269,22 +269,23 @@ CLAIMED["C10"] = {
             "t_ignore; grammar size and automaton. (2) LAYOUT IRRELEVANCE (C10_layout_irrelevance, C10_same_denotation): for EVERY "
             "surface program - quoted strings with either quote character and any escapes, integers and decimals in any spelling "
             "the token rules accept, unquoted identifiers, lists at any nesting and dictionaries and argument lists with or "
-            "without trailing commas - and ANY gaps (blanks, tabs, LF/CR/CRLF line breaks, blank lines, comments, a final comment "
-            "without line break) before, between and after its tokens, the text parses to a version-3 program with the same "
+            "without trailing commas, commands in the Result = Command(...) or the EEMS 2.0 COMMAND(...) form - and ANY gaps (blanks, tabs, LF/CR/CRLF line breaks, blank lines, comments, a final comment "
+            "without line break) before, between and after its tokens, the text parses to a program of the right version with the same "
             "commands, names and, for every argument, the denotation of what was written; two renderings with the same denotation "
             "parse to the same program, lines apart. Proved by: gap-skipping lemmas for the master regex, per-rule boundary lemmas "
             "(STRING self-delimiting, INT/FLOAT/ID delimited by what may follow), simulation of the LALR automaton over the "
             "regenerated tables per syntactic category incl. the trailing-comma productions, and evaluation of the semantic "
             "actions; all hypotheses are computable booleans. The canonical layout of the serialiser is an instance for every "
             "program (C15). PARTIAL: NOT proved for the forms outside the surface family - unquoted multi-word / colon text "
-            "(plain_string productions, PLAIN_STRING tokens), the EEMS 2.0 command form, dictionaries with unquoted keys or list "
+            "(plain_string productions, PLAIN_STRING tokens), dictionaries with unquoted keys or list "
             "values; these are covered by differential runs only: random programs x layouts, corruptions, token soups, unquoted "
             "multi-word values, compared with the real parser node for node, line numbers included. The evidence counts how many "
             "generated renderings are instances of the theorem (Coq re-assembles each text from its decomposition and evaluates the "
             "hypotheses).",
     "note": PARSER_NOTE + " Code limitation modelled faithfully and not counted as a violation of well-formed renderings: unquoted "
-            "multi-word values lose their blanks and re-print numerals (the renderer quotes such text). The simulation lemmas are "
-            "tied to the concrete regenerated tables: a grammar edit re-checks them (they may break although the property holds).",
+            "multi-word values lose their blanks and re-print numerals (the renderer quotes such text). The simulation lemmas name "
+            "the automaton's states by how they are reached, not by number, so a renumbering of PLY's tables leaves them intact; a "
+            "change of the grammar itself re-checks them (they may then break although the property holds).",
     "technique": "Rocq proof (lexer/LR soundness for all inputs; layout irrelevance and round trip for the surface family, over regenerated PLY tables) + differential correspondence for the remaining forms",
     "design": "DESIGN.md section 4 C10",
 }
